@@ -155,6 +155,8 @@ func c13Insert(ls []c13Line, at int, l c13Line) []c13Line {
 	return append(out, ls[at:]...)
 }
 
+func c13HasSign(t string) bool { return len(t) > 0 && (t[0] == ' ' || t[0] == '-' || t[0] == '+') }
+
 func c13IsWord(b byte) bool {
 	return b == '_' || b >= 'a' && b <= 'z' || b >= 'A' && b <= 'Z' || b >= '0' && b <= '9'
 }
@@ -268,7 +270,11 @@ func c13Transform(ls []c13Line, kind int) (out []c13Line, texts map[int]string, 
 		out = append([]c13Line{}, ls...)
 		for i, l := range out {
 			if l.kind == c13Body && len(l.text) > 0 {
-				out[i].text = l.text[:1] + ind + l.text[1:]
+				if c13HasSign(l.text) {
+					out[i].text = l.text[:1] + ind + l.text[1:]
+				} else { // a context line written without the leading space
+					out[i].text = ind + l.text
+				}
 			}
 		}
 		return out, texts, "pattern re-indented", true
@@ -329,8 +335,8 @@ func c13Transform(ls []c13Line, kind int) (out []c13Line, texts map[int]string, 
 		}
 		old := names[nd.Choose("which", len(names))]
 		for _, l := range ls {
-			if l.kind == c13Body && strings.Contains(l.text, "import") && strings.Contains(l.text, old+" \"") {
-				return nil, nil, "", false
+			if l.kind == c13Body && (strings.Contains(l.text, old+" \"") || strings.Contains(l.text, old+" `")) {
+				return nil, nil, "", false // the metavariable names an import: its spelling is documented to matter
 			}
 		}
 		repl := "q" + c13Letters("newname", 2)
@@ -359,7 +365,7 @@ func c13Transform(ls []c13Line, kind int) (out []c13Line, texts map[int]string, 
 	case 7: // wrap a line after its first comma
 		var el []int
 		for i, l := range ls {
-			if l.kind == c13Body && strings.Contains(l.text, ", ") && !strings.Contains(l.text, "...") && !strings.Contains(l.text, "\"") {
+			if l.kind == c13Body && c13HasSign(l.text) && strings.Contains(l.text, ", ") && !strings.Contains(l.text, "...") && !strings.Contains(l.text, "\"") && !strings.Contains(l.text, "`") && !strings.Contains(l.text, "'") {
 				el = append(el, i)
 			}
 		}
@@ -535,6 +541,93 @@ func VerifC13Layout() {
 		ob, errB := cb.Replace(db, NewChangelog())
 		nd.Assert((errA == nil) == (errB == nil), fmt.Sprintf("%s: change %d fails in one layout only", name, i))
 		if errA != nil || errB != nil {
+			return
+		}
+		fa, fb = oa, ob
+	}
+	nd.Assert(len(fa.Decls) == len(fb.Decls), name+": results differ in their declarations")
+	nd.Assert(faEqual(reflect.ValueOf(fa.Decls), reflect.ValueOf(fb.Decls)), name+": the two layouts rewrite the file differently")
+	nd.Assert(nd.StrEq(fa.Name.Name, fb.Name.Name), name+": package clause differs")
+	nd.Reach("compared")
+}
+
+// VerifC13LayoutTestdata: the same differential oracle over the repository's
+// own patches: every single-patch testdata case (patch + its golden input
+// file, regenerated from the current tree by tools/tdcases.py) is run in its
+// original and in a transformed layout on two copies of its input. The
+// targets are concrete; the inserted bytes (comment text, names, blank
+// character) are solver-ranged. STRIDE/OFFSET subsample the cases in the
+// quick tier.
+func VerifC13LayoutTestdata() {
+	stride, offset := nd.Param("STRIDE", 1), nd.Param("OFFSET", 0)
+	var idx []int
+	for i := range tdCases {
+		if i%stride == offset%stride {
+			idx = append(idx, i)
+		}
+	}
+	c := tdCases[idx[nd.Choose("case", len(idx))]]
+	ls := c13Split(c.patch)
+	kind := nd.Choose("transform", c13Kinds)
+	vs, texts, what, ok := c13Transform(ls, kind)
+	nd.Assume(ok)
+	text := c13Join(vs)
+	if kind == 8 {
+		text = strings.TrimSuffix(text, "\n")
+	}
+	name := c.name + " [" + what + "]"
+
+	type side struct {
+		fset *token.FileSet
+		prog *Program
+		file *ast.File
+	}
+	load := func(patch string) (*side, error) {
+		s := &side{fset: token.NewFileSet()}
+		pp, err := parse.Parse(s.fset, "p.patch", []byte(patch))
+		if err != nil {
+			return nil, err
+		}
+		if s.prog, err = Compile(s.fset, pp); err != nil {
+			return nil, err
+		}
+		if s.file, err = parser.ParseFile(s.fset, "a.go", c.src, parser.ParseComments); err != nil {
+			panic("harness: testdata input does not parse: " + c.name)
+		}
+		return s, nil
+	}
+	a, errA := load(c.patch)
+	nd.Assume(errA == nil) // the suite's negative cases (patches that must be rejected) have no meaning to preserve
+	b, errB := load(text)
+	nd.Assert(errB == nil, name+": the re-laid-out patch is rejected")
+	if errB != nil {
+		nd.Reach("rejected")
+		return
+	}
+	nd.Assert(len(a.prog.Changes) == len(b.prog.Changes), name+": number of changes differs")
+	if len(a.prog.Changes) != len(b.prog.Changes) {
+		return
+	}
+	wantDesc := c13Descriptions(vs, texts)
+	for i, ch := range b.prog.Changes {
+		nd.Assert(c13StrsEq(ch.Comments, wantDesc[i]), fmt.Sprintf("%s: description of change %d is not the '#' lines directly above its header", name, i))
+	}
+	fa, fb := a.file, b.file
+	for i := range a.prog.Changes {
+		da, okA := a.prog.Changes[i].Match(fa)
+		db, okB := b.prog.Changes[i].Match(fb)
+		nd.Assert(okA == okB, fmt.Sprintf("%s: change %d matches in one layout only", name, i))
+		if okA != okB {
+			return
+		}
+		if !okA {
+			continue
+		}
+		nd.Assert(c01CountMatches(da) == c01CountMatches(db), fmt.Sprintf("%s: change %d rewrites a different number of sites", name, i))
+		oa, e1 := a.prog.Changes[i].Replace(da, NewChangelog())
+		ob, e2 := b.prog.Changes[i].Replace(db, NewChangelog())
+		nd.Assert((e1 == nil) == (e2 == nil), fmt.Sprintf("%s: change %d fails in one layout only", name, i))
+		if e1 != nil || e2 != nil {
 			return
 		}
 		fa, fb = oa, ob
